@@ -380,8 +380,10 @@ func (f *File) seekWithoutLocking(offset int64, whence int) (int64, error) {
 					return
 				}
 
-				// TODO: Handle error
-				panic(err)
+				// Hand the error to the reader instead of taking the process down
+				_ = writer.CloseWithError(err)
+
+				return
 			}
 
 			// Signal EOF even if nothing was restored into the pipe (i.e. the record is not a regular file)
@@ -563,8 +565,10 @@ func (f *File) Read(p []byte) (n int, err error) {
 					return
 				}
 
-				// TODO: Handle error
-				panic(err)
+				// Hand the error to the reader instead of taking the process down
+				_ = writer.CloseWithError(err)
+
+				return
 			}
 
 			// Signal EOF even if nothing was restored into the pipe (i.e. the record is not a regular file)
